@@ -21,6 +21,8 @@ package dirlock
 //@   ensures[exclusive-nonblocking-flock] gDirOpenErr == nil ==> gFlocks == old(gFlocks) + 1 && gFlockHow == gLockExNb() && gFlockFd == wrapI64(gFdOf(gDirOpenFile))
 //@   ensures[flock-error-propagated] gDirOpenErr == nil ==> ((result == nil) <==> (gFlockErr == nil))
 //@   ensures[holds-the-file] gDirOpenErr == nil ==> l.f == gDirOpenFile
+//   (round 4, area B) ... which is a real descriptor (nsqd.New hands out a daemon whose lock object can be released by Exit)
+//@   ensures[file-is-open] gDirOpenErr == nil ==> l.f != nil
 //@   modifies l.f, gDirOpens, gDirOpenName, gDirOpenFile, gDirOpenErr, gFlocks, gFlockFd, gFlockHow, gFlockErr
 
 // Unlock releases the flock (LOCK_UN = 8) on the descriptor Lock opened and closes it afterwards.
